@@ -101,7 +101,66 @@ def battery_bin():
     return out
 
 
+GEN_STATUS_OPS = [({'op': 'client_gen_status', 'endpoint': 'g3', 'status': 204}, False), ({'op': 'client_gen_status', 'endpoint': 'g3', 'status': 200, 'content_type': 'application/json', 'body': b'"x"'.hex()}, '78'),
+                  ({'op': 'client_gen_status', 'endpoint': 'g3', 'status': 200, 'content_type': 'application/json', 'body': b'"x'.hex()}, False),
+                  ({'op': 'client_gen_status', 'endpoint': 'g1', 'status': 204}, None), ({'op': 'client_gen_status', 'endpoint': 'g4', 'status': 204}, None),
+                  ({'op': 'client_gen_status', 'endpoint': 'g4', 'status': 200, 'content_type': 'application/json', 'body': b'"y"'.hex()}, '79'),
+                  ({'op': 'client_gen_status', 'endpoint': 'g4', 'status': 200, 'content_type': 'text/plain', 'body': b'"y"'.hex()}, False)]
+
+
+def battery_gen():
+    out = []
+    for (o, w), r in zip(GEN_STATUS_OPS, replay([o for o, _ in GEN_STATUS_OPS])):
+        good = (not r.get('ok')) if w is False else (r.get('ok') and r.get('returned') == w)
+        if not good:
+            out.append(f'{o}: generated client returns {r}, expected {"an error" if w is False else repr(w)}')
+    return out
+
+
+def run_generated_discipline(rep):
+    """which decode_* entry point the *generated* client hands the response to, per class of return type (read from the IR):
+    nothing -> decode_empty_response; optional / collection -> decode_default_serializable_response (a 204 is their empty value);
+    anything else -> decode_serializable_response (a 204 is an error).  Part 2 decides those entry points; this is the link."""
+    import json as _json, re as _re, os as _os
+    from checks import c04, endpoints as ep
+    from vlib.common import VERIF
+    prog = ep.harness_program('gen-crates/service', c04.GCRATE, ['conjure_serde'])
+    ir = _json.load(open(_os.path.join(VERIF, 'gen-crates/service/ir/service.json')))
+
+    def cls(t):
+        if t is None:
+            return 'decode_empty_response'
+        k = t['type']
+        if k == 'optional' and t['optional']['itemType'].get('primitive') == 'BINARY':
+            return 'decode_optional_binary_response'
+        if k == 'primitive' and t['primitive'] == 'BINARY':
+            return 'decode_binary_response'
+        return 'decode_default_serializable_response' if k in ('optional', 'list', 'set', 'map') else 'decode_serializable_response'
+    for svc in ir['services']:
+        for e in svc['endpoints']:
+            want = cls(e.get('returns'))
+            for trait, pre in (('Gsvc', ''), ('GsvcAsync', 'async_')):
+                fn = c04.client_fn(prog, trait, e['endpointName'], c04.GCRATE)
+                bodies = [fn] + [k for k in prog.fns if k.startswith(fn + '::{closure')]
+                called = set()
+                for b in bodies:
+                    for stmts, term in prog.fns[b].blocks.values():
+                        for mm in _re.finditer(r'private::(?:client::)?((?:async_)?decode_\w+_response)', term):
+                            called.add(mm.group(1))
+                rep.functions_encoded.append(fn)
+                ok = called == {pre + want}
+                rep.query(f'generated:{trait}.{e["endpointName"]}:decoder=={pre + want}', 'unsat' if ok else 'sat', 0.0, called=sorted(called))
+                if not ok:
+                    rep.structural(f'C18:generated-decoder:{e["endpointName"]}', f'generated {trait}Client::{e["endpointName"]} (returns {_json.dumps(e.get("returns"))}) decodes its response with {sorted(called)}; '
+                                   f'its return type calls for {pre + want}', {'endpoint': e['endpointName'], 'called': sorted(called)}, battery_gen)
+    for fail in battery_gen():
+        rep.violation('C18:native:generated', f'native twin: {fail}', {'native': fail})
+    rep.replayed += len(GEN_STATUS_OPS)
+
+
 def run(rep, tier):
+    with rep.part('generated client decoder selection'):
+        run_generated_discipline(rep)
     NCH, L = (3, 2) if tier == 'quick' else (4, 2)
     rep.bounds['history'] = f'<= {NCH} stream items, each Ok(chunk of <= {L} symbolic bytes, empty chunks included) or Err(e_i); status in {list(STATUS)}; Content-Type absent or one of {[c.decode() for c in CT_CHOICES if c]}'
     prog = program(['conjure_http', 'conjure_serde'])
